@@ -169,7 +169,7 @@ impl<T, N: ArrayLength> IntrusiveArrayBuilder<T, N> {
     }
     pub open spec fn built(&self) -> Seq<T> { Seq::new(self.position as nat, |k: int| self.array.view()[k].unwrap()) }
 
-    // extracted from src/internal.rs:77  `fn new( array: &'a mut GenericArray<MaybeUninit<T>, N>, ) -> IntrusiveArrayBuilder<'a, T, N>`
+    // extracted from src/internal.rs:115  `fn new( array: &'a mut GenericArray<MaybeUninit<T>, N>, ) -> IntrusiveArrayBuilder<'a, T, N>`
     pub fn new(array: Slots<T, N>) -> (r: Self)
         requires
             array.ok(),
@@ -183,7 +183,7 @@ impl<T, N: ArrayLength> IntrusiveArrayBuilder<T, N> {
     }
     proof fn reach_new(array: Slots<T, N>) requires array.ok(), array.all_dead(), { assert(false); } /*OB:canary.new:*/
 
-    // extracted from src/internal.rs:83  `fn extend(&mut self, source: impl Iterator<Item = T>)`
+    // extracted from src/internal.rs:127  `fn extend(&mut self, source: impl Iterator<Item = T>)`
     pub fn extend<I: ForeignIter<T>>(&mut self, source: &mut I)
         requires
             old(self).wf(),
@@ -233,7 +233,7 @@ impl<T, N: ArrayLength> IntrusiveArrayBuilder<T, N> {
     }
     proof fn reach_extend<I: ForeignIter<T>>(self, source: I) requires self.wf(), self.position == 0, !polled_after_none(source.returned()), source.inv(), { assert(false); } /*OB:canary.extend:*/
 
-    // extracted from src/internal.rs:92  `fn is_full(&self) -> bool`
+    // extracted from src/internal.rs:138  `fn is_full(&self) -> bool`
     pub fn is_full(&self) -> (r: bool)
         ensures
             r == (self.position == N::n()), /*OB:is_full.post.full:C04,C07*/
@@ -241,7 +241,7 @@ impl<T, N: ArrayLength> IntrusiveArrayBuilder<T, N> {
         self.position == N::usize_()
     }
 
-    // extracted from src/internal.rs:100  `fn finish(self)`
+    // extracted from src/internal.rs:174  `fn finish(self)`
     pub fn finish(self) -> (r: Slots<T, N>)
         requires
             self.wf(),
@@ -254,7 +254,7 @@ impl<T, N: ArrayLength> IntrusiveArrayBuilder<T, N> {
     }
     proof fn reach_finish(self) requires self.wf(), self.position == N::n(), { assert(false); } /*OB:canary.finish:*/
 
-    // extracted from src/internal.rs:111  `fn drop(&mut self)`
+    // extracted from src/internal.rs:187  `fn drop(&mut self)`
     pub fn drop_impl(&mut self)
         requires
             old(self).wf(),
@@ -269,7 +269,7 @@ impl<T, N: ArrayLength> IntrusiveArrayBuilder<T, N> {
 
 }
 
-    // extracted from src/internal.rs:105  `fn array_assume_init(array: GenericArray<MaybeUninit<T>, N>) -> GenericArray<T, N>`
+    // extracted from src/internal.rs:181  `fn array_assume_init(array: GenericArray<MaybeUninit<T>, N>) -> GenericArray<T, N>`
     pub fn array_assume_init<T, N: ArrayLength>(array: Slots<T, N>) -> (r: GenericArray<T, N>)
         requires
             array.ok(),
@@ -281,7 +281,7 @@ impl<T, N: ArrayLength> IntrusiveArrayBuilder<T, N> {
     }
     proof fn reach_array_assume_init<T, N: ArrayLength>(array: Slots<T, N>) requires array.ok(), array.all_live(), { assert(false); } /*OB:canary.array_assume_init:*/
 
-    // extracted from src/lib.rs:642  `fn try_from_iter<I>(iter: I) -> Result<Self, LengthError> where I: IntoIterator<Item = T>,`
+    // extracted from src/lib.rs:957  `fn try_from_iter<I>(iter: I) -> Result<Self, LengthError> where I: IntoIterator<Item = T>,`
     pub fn try_from_iter<T, N: ArrayLength, I: ForeignIter<T>>(iter: &mut I) -> (ret: Result<GenericArray<T, N>, LengthError>)
         requires
             old(iter).returned().len() == 0,
@@ -333,7 +333,7 @@ impl<T, N: ArrayLength> IntrusiveArrayBuilder<T, N> {
     }
     proof fn reach_try_from_iter<T, N: ArrayLength, I: ForeignIter<T>>(iter: I) requires iter.returned().len() == 0, iter.inv(), { assert(false); } /*OB:canary.try_from_iter:*/
 
-    // extracted from src/lib.rs:283  `fn generate<F>(mut f: F) -> GenericArray<T, N> where F: FnMut(usize) -> T,`
+    // extracted from src/lib.rs:508  `fn generate<F>(mut f: F) -> GenericArray<T, N> where F: FnMut(usize) -> T,`
     pub fn generate<T, N: ArrayLength, F: Foreign1<usize, T>>(f: &mut F) -> (ret: GenericArray<T, N>)
         requires
             old(f).log().len() == 0,
@@ -374,7 +374,7 @@ impl<T, N: ArrayLength> IntrusiveArrayBuilder<T, N> {
     }
     proof fn reach_generate<T, N: ArrayLength, F: Foreign1<usize, T>>(f: F) requires f.log().len() == 0, { assert(false); } /*OB:canary.generate:*/
 
-    // extracted from src/impl_alloc.rs:141  `fn generate<F>(mut f: F) -> Self::Sequence where F: FnMut(usize) -> T,`
+    // extracted from src/impl_alloc.rs:165  `fn generate<F>(mut f: F) -> Self::Sequence where F: FnMut(usize) -> T,`
     pub fn generate_boxed<T, N: ArrayLength, F: Foreign1<usize, T>>(f: &mut F) -> (ret: GenericArray<T, N>)
         requires
             old(f).log().len() == 0,
@@ -426,7 +426,7 @@ impl<T, N: ArrayLength> ArrayConsumer<T, N> {
         &&& forall|k: int| 0 <= k < N::n() ==> ((#[trigger] self.array.view()[k]).is_some() <==> k >= self.position)
     }
 
-    // extracted from src/internal.rs:133  `fn new(array: GenericArray<T, N>) -> ArrayConsumer<T, N>`
+    // extracted from src/internal.rs:210  `fn new(array: GenericArray<T, N>) -> ArrayConsumer<T, N>`
     pub fn new(array: GenericArray<T, N>) -> (r: Self)
         requires
             array.slots.ok(),
@@ -440,7 +440,7 @@ impl<T, N: ArrayLength> ArrayConsumer<T, N> {
     }
     proof fn reach_new(array: GenericArray<T, N>) requires array.slots.ok(), array.slots.all_live(), { assert(false); } /*OB:canary.consumer_new:*/
 
-    // extracted from src/internal.rs:146  `fn drop(&mut self)`
+    // extracted from src/internal.rs:228  `fn drop(&mut self)`
     pub fn drop_impl(&mut self)
         requires
             old(self).wf(),
@@ -455,7 +455,7 @@ impl<T, N: ArrayLength> ArrayConsumer<T, N> {
 
 }
 
-    // extracted from src/lib.rs:260  `fn from_iter<I>(iter: I) -> GenericArray<T, N> where I: IntoIterator<Item = T>,`
+    // extracted from src/lib.rs:483  `fn from_iter<I>(iter: I) -> GenericArray<T, N> where I: IntoIterator<Item = T>,`
     pub fn from_iter<T, N: ArrayLength, I: ForeignIter<T>>(iter: &mut I) -> (ret: PanicOr<GenericArray<T, N>>)
         requires
             old(iter).returned().len() == 0,
@@ -472,7 +472,7 @@ impl<T, N: ArrayLength> ArrayConsumer<T, N> {
     }
     proof fn reach_from_iter<T, N: ArrayLength, I: ForeignIter<T>>(iter: I) requires iter.returned().len() == 0, iter.inv(), { assert(false); } /*OB:canary.from_iter:*/
 
-    // extracted from src/lib.rs:423  `fn fold<U, F>(self, init: U, mut f: F) -> U where F: FnMut(U, T) -> U,`
+    // extracted from src/lib.rs:652  `fn fold<U, F>(self, init: U, mut f: F) -> U where F: FnMut(U, T) -> U,`
     pub fn fold<T, U, N: ArrayLength, F: Foreign2<U, T, U>>(this: GenericArray<T, N>, init: U, f: &mut F) -> (ret: U)
         requires
             this.slots.ok(),
@@ -560,7 +560,7 @@ impl<T, U, N: ArrayLength, F: Foreign1<T, U>> ForeignIter<U> for MapPipe<T, U, N
     fn size_hint(&self) -> (r: (usize, Option<usize>)) { (N::usize_() - self.k, Some(N::usize_() - self.k)) }
 }
 
-    // extracted from src/lib.rs:393  `fn map<U, F>(self, mut f: F) -> MappedSequence<Self, T, U> where Self: MappedGenericSequence<T, U>, F: FnMut(T) -> U,`
+    // extracted from src/lib.rs:620  `fn map<U, F>(self, mut f: F) -> MappedSequence<Self, T, U> where Self: MappedGenericSequence<T, U>, F: FnMut(T) -> U,`
     pub fn map<T, U, N: ArrayLength, F: Foreign1<T, U>>(this: GenericArray<T, N>, f: F) -> (ret: (PanicOr<GenericArray<U, N>>, F))
         requires
             this.slots.ok(),
@@ -689,7 +689,7 @@ impl<B, T, U, N: ArrayLength, F: Foreign2<B, T, U>> ForeignIter<U> for PlainZipP
     fn size_hint(&self) -> (r: (usize, Option<usize>)) { (N::usize_() - self.k, Some(N::usize_() - self.k)) }
 }
 
-    // extracted from src/lib.rs:305  `fn inverted_zip<B, U, F>( self, lhs: GenericArray<B, Self::Length>, mut f: F, ) -> MappedSequence<GenericArray<B, Self::Length>, B, U> where GenericArray<B, Self::Length>: GenericSequence<B, Length = Self::Length> + MappedGenericSequence<B, U>, Self: MappedGenericSequence<T, U>, F: FnMut(B, Self::Item) -> U,`
+    // extracted from src/lib.rs:531  `fn inverted_zip<B, U, F>( self, lhs: GenericArray<B, Self::Length>, mut f: F, ) -> MappedSequence<GenericArray<B, Self::Length>, B, U> where GenericArray<B, Self::Length>: GenericSequence<B, Length = Self::Length> + MappedGenericSequence<B, U>, Self: MappedGenericSequence<T, U>, F: FnMut(B, Self::Item) -> U,`
     pub fn inverted_zip<B, T, U, N: ArrayLength, F: Foreign2<B, T, U>>(this: GenericArray<T, N>, lhs: GenericArray<B, N>, f: F, nd_t: bool, nd_b: bool) -> (ret: (PanicOr<GenericArray<U, N>>, F))
         requires
             this.slots.ok(),
@@ -802,7 +802,7 @@ impl<'a, T, U, N: ArrayLength, F: Foreign1<&'a T, U>> ForeignIter<U> for RefMapP
     fn size_hint(&self) -> (r: (usize, Option<usize>)) { (N::usize_() - self.k, Some(N::usize_() - self.k)) }
 }
 
-    // extracted from src/functional.rs:39  `fn map<U, F>(self, f: F) -> MappedSequence<Self, T, U> where Self: MappedGenericSequence<T, U>, F: FnMut(Self::Item) -> U,`
+    // extracted from src/functional.rs:43  `fn map<U, F>(self, f: F) -> MappedSequence<Self, T, U> where Self: MappedGenericSequence<T, U>, F: FnMut(Self::Item) -> U,`
     pub fn map_ref<'a, T, U, N: ArrayLength, F: Foreign1<&'a T, U>>(this: &'a Slots<T, N>, f: F) -> (ret: (PanicOr<GenericArray<U, N>>, F))
         requires
             this.ok(),
@@ -860,6 +860,353 @@ impl<'a, T, U, N: ArrayLength, F: Foreign1<&'a T, U>> ForeignIter<U> for RefMapP
         generate::<T, N, F>(default_)
     }
     proof fn reach_default_array<T, N: ArrayLength, F: Foreign1<usize, T>>(default_: F) requires default_.log().len() == 0, { assert(false); } /*OB:canary.default_array:*/
+
+
+pub struct Zip2Pipe<'a, A, B, U, N: ArrayLength, F: Foreign2<&'a A, B, U>> {
+    pub left: &'a Slots<A, N>, pub right: ArrayConsumer<B, N>, pub k: usize, pub f: F, pub nd_a: bool, pub nd_b: bool,
+    pub ret: Ghost<Seq<Option<U>>>, pub la0: Ghost<Seq<A>>, pub ra0: Ghost<Seq<B>>, pub _u: core::marker::PhantomData<U>,
+}
+impl<'a, A, B, U, N: ArrayLength, F: Foreign2<&'a A, B, U>> ForeignIter<U> for Zip2Pipe<'a, A, B, U, N, F> {
+    type K = (Seq<A>, Seq<B>);
+    open spec fn konst(&self) -> (Seq<A>, Seq<B>) { (self.la0@, self.ra0@) }
+    open spec fn returned(&self) -> Seq<Option<U>> { self.ret@ }
+    open spec fn hint(&self) -> (usize, Option<usize>) { ((N::n() - self.k) as usize, Some((N::n() - self.k) as usize)) }
+    open spec fn inv(&self) -> bool {
+        &&& self.k <= N::n() && self.la0@.len() == N::n() && self.ra0@.len() == N::n()
+        &&& self.left.ok() && self.left.all_live() &&& forall|j: int| 0 <= j < N::n() ==> (#[trigger] self.left.view()[j]) == Some(self.la0@[j]) 
+        &&& self.right.wf() &&& (self.k < N::n() ==> self.right.position == self.k) &&& (self.k == N::n() ==> self.right.position == N::n()) &&& forall|j: int| self.right.position <= j < N::n() ==> (#[trigger] self.right.array.view()[j]) == Some(self.ra0@[j]) 
+        
+        &&& self.f.log().len() == self.k
+        &&& forall|j: int| 0 <= j < self.k ==> *(#[trigger] self.f.log()[j]).0 == self.la0@[j] && self.f.log()[j].1 == self.ra0@[j]
+        &&& self.ret@.len() >= self.k
+        &&& forall|j: int| 0 <= j < self.k ==> (#[trigger] self.ret@[j]) == Some(self.f.log()[j].2)
+        &&& forall|j: int| self.k <= j < self.ret@.len() ==> (#[trigger] self.ret@[j]).is_none()
+        &&& (self.ret@.len() > self.k ==> self.k == N::n())
+    }
+    fn next(&mut self) -> (r: Option<U>)
+    {
+        // Zip of two iterators over N items each
+        if self.k >= N::usize_() {
+            proof { self.ret = Ghost(self.ret@.push(None)); }
+            return None;
+        }
+        let l = self.k;
+        let r = self.k;
+        self.k += 1;
+
+        let left_value = self.left.peek(l);
+        let right_value = self.right.array.take(r);
+        self.right.position += 1;
+        proof {
+            assert(self.right.wf()) /*OB:inverted_zip2.unwind@closure:C04*/;
+        }
+        let __r = self.f.call(left_value, right_value);
+        proof {
+            self.ret = Ghost(self.ret@.push(Some(__r)));
+        }
+        Some(__r)
+    }
+    fn size_hint(&self) -> (r: (usize, Option<usize>)) { (N::usize_() - self.k, Some(N::usize_() - self.k)) }
+}
+
+
+pub struct Zip2PlainPipe<'a, A, B, U, N: ArrayLength, F: Foreign2<&'a A, B, U>> {
+    pub left: &'a Slots<A, N>, pub right: Slots<B, N>, pub k: usize, pub f: F, pub nd_a: bool, pub nd_b: bool,
+    pub ret: Ghost<Seq<Option<U>>>, pub la0: Ghost<Seq<A>>, pub ra0: Ghost<Seq<B>>, pub _u: core::marker::PhantomData<U>,
+}
+impl<'a, A, B, U, N: ArrayLength, F: Foreign2<&'a A, B, U>> ForeignIter<U> for Zip2PlainPipe<'a, A, B, U, N, F> {
+    type K = (Seq<A>, Seq<B>);
+    open spec fn konst(&self) -> (Seq<A>, Seq<B>) { (self.la0@, self.ra0@) }
+    open spec fn returned(&self) -> Seq<Option<U>> { self.ret@ }
+    open spec fn hint(&self) -> (usize, Option<usize>) { ((N::n() - self.k) as usize, Some((N::n() - self.k) as usize)) }
+    open spec fn inv(&self) -> bool {
+        &&& self.k <= N::n() && self.la0@.len() == N::n() && self.ra0@.len() == N::n()
+        &&& self.left.ok() && self.left.all_live() &&& forall|j: int| 0 <= j < N::n() ==> (#[trigger] self.left.view()[j]) == Some(self.la0@[j]) 
+        &&& self.right.ok() &&& forall|j: int| 0 <= j < N::n() ==> ((#[trigger] self.right.view()[j]).is_some() <==> j >= self.k) &&& forall|j: int| self.k <= j < N::n() ==> (#[trigger] self.right.view()[j]) == Some(self.ra0@[j]) 
+        &&& !self.nd_b
+        &&& self.f.log().len() == self.k
+        &&& forall|j: int| 0 <= j < self.k ==> *(#[trigger] self.f.log()[j]).0 == self.la0@[j] && self.f.log()[j].1 == self.ra0@[j]
+        &&& self.ret@.len() >= self.k
+        &&& forall|j: int| 0 <= j < self.k ==> (#[trigger] self.ret@[j]) == Some(self.f.log()[j].2)
+        &&& forall|j: int| self.k <= j < self.ret@.len() ==> (#[trigger] self.ret@[j]).is_none()
+        &&& (self.ret@.len() > self.k ==> self.k == N::n())
+    }
+    fn next(&mut self) -> (r: Option<U>)
+    {
+        // Zip of two iterators over N items each
+        if self.k >= N::usize_() {
+            proof { self.ret = Ghost(self.ret@.push(None)); }
+            return None;
+        }
+        let l = self.k;
+        let r = self.k;
+        self.k += 1;
+
+        let left_value = self.left.peek(l);
+        let __b = self.right.take(r);
+        proof {
+            assert(!self.nd_b || self.right.all_dead()) /*OB:inverted_zip2.unwind@closure-unguarded-block-holds-nothing-that-needs-drop:C04*/;
+        }
+        let __r = self.f.call(left_value, __b);
+        proof {
+            self.ret = Ghost(self.ret@.push(Some(__r)));
+        }
+        Some(__r)
+    }
+    fn size_hint(&self) -> (r: (usize, Option<usize>)) { (N::usize_() - self.k, Some(N::usize_() - self.k)) }
+}
+
+    // extracted from src/lib.rs:577  `fn inverted_zip2<B, Lhs, U, F>(self, lhs: Lhs, mut f: F) -> MappedSequence<Lhs, B, U> where Lhs: GenericSequence<B, Length = Self::Length> + MappedGenericSequence<B, U>, Self: MappedGenericSequence<T, U>, F: FnMut(Lhs::Item, Self::Item) -> U,`
+    pub fn inverted_zip2<'a, B, T, U, N: ArrayLength, F: Foreign2<&'a B, T, U>>(this: GenericArray<T, N>, lhs: &'a Slots<B, N>, f: F, nd_t: bool) -> (ret: (PanicOr<GenericArray<U, N>>, F))
+        requires
+            this.slots.ok(),
+            this.slots.all_live(),
+            lhs.ok(),
+            lhs.all_live(),
+            f.log().len() == 0,
+        ensures
+            ret.0 is Ret, /*OB:inverted_zip2.post.never-the-length-panic:C08*/
+            ret.1.log().len() == N::n(), /*OB:inverted_zip2.post.once-per-index:C08*/
+            forall|k: int| 0 <= k < N::n() ==> (#[trigger] ret.0->Ret_0.elems()[k]) == ret.1.log()[k].2, /*OB:inverted_zip2.post.result-k-at-index-k:C08*/
+            forall|k: int| 0 <= k < N::n() ==> *(#[trigger] ret.1.log()[k]).0 == lhs.view()[k].unwrap() && ret.1.log()[k].1 == this.elems()[k], /*OB:inverted_zip2.post.pairs-ascending:C08*/
+    {
+        let ghost la0 = Seq::new(N::n() as nat, |k: int| lhs.view()[k].unwrap());
+        let ghost ra0 = this.elems();
+        {
+            if nd_t {
+                let right = ArrayConsumer::new(this);
+                {
+                    let mut pipe = Zip2Pipe {
+                        left: lhs, right: right, k: 0, f: f, nd_a: false, nd_b: nd_t, ret: Ghost(Seq::empty()), la0: Ghost(la0), ra0: Ghost(ra0), _u: core::marker::PhantomData
+                    };
+                    proof {
+                        assert(pipe.inv());
+                    }
+                    let r = from_iter::<U, N, Zip2Pipe<B, T, U, N, F>>(&mut pipe);
+                    proof {
+                        assert(pipe.k == N::n());
+                        assert(pipe.right.position == N::n());
+                        assert(pipe.la0@ == la0 && pipe.ra0@ == ra0);
+                        assert forall|k: int| 0 <= k < N::n() implies (#[trigger] r->Ret_0.elems()[k]) == pipe.f.log()[k].2 by {
+                            assert(pipe.returned()[k] == Some(r->Ret_0.elems()[k]));
+                            assert(pipe.ret@[k] == Some(pipe.f.log()[k].2));
+                        }
+                    }
+                    let Zip2Pipe {
+                        left: _, right, k: _, f, nd_a: _, nd_b: _, ret: _, la0: _, ra0: _, _u: _
+                    }
+                    = pipe;
+                    let mut right = right;
+                    right.drop_impl();
+                    (r, f)
+                }
+            }  else {
+                let right = this.slots;
+                {
+                    let mut pipe = Zip2PlainPipe {
+                        left: lhs, right: right, k: 0, f: f, nd_a: false, nd_b: nd_t, ret: Ghost(Seq::empty()), la0: Ghost(la0), ra0: Ghost(ra0), _u: core::marker::PhantomData
+                    };
+                    proof {
+                        assert(pipe.inv());
+                    }
+                    let r = from_iter::<U, N, Zip2PlainPipe<B, T, U, N, F>>(&mut pipe);
+                    proof {
+                        assert(pipe.k == N::n());
+                        assert(pipe.la0@ == la0 && pipe.ra0@ == ra0);
+                        assert forall|k: int| 0 <= k < N::n() implies (#[trigger] r->Ret_0.elems()[k]) == pipe.f.log()[k].2 by {
+                            assert(pipe.returned()[k] == Some(r->Ret_0.elems()[k]));
+                            assert(pipe.ret@[k] == Some(pipe.f.log()[k].2));
+                        }
+                    }
+                    let Zip2PlainPipe {
+                        left: _, right, k: _, f, nd_a: _, nd_b: _, ret: _, la0: _, ra0: _, _u: _
+                    }
+                    = pipe;
+                    right.scope_exit_unowned() /*OB:inverted_zip2.nothing-live-leaves-scope-unowned:C03*/;
+                    (r, f)
+                }
+            }
+        }
+    }
+    proof fn reach_inverted_zip2<'a, B, T, U, N: ArrayLength, F: Foreign2<&'a B, T, U>>(this: GenericArray<T, N>, lhs: &'a Slots<B, N>, f: F, nd_t: bool) requires this.slots.ok(), this.slots.all_live(), lhs.ok(), lhs.all_live(), f.log().len() == 0, { assert(false); } /*OB:canary.inverted_zip2:*/
+
+
+pub struct ZipRefRightPipe<'a, A, B, U, N: ArrayLength, F: Foreign2<A, &'a B, U>> {
+    pub left: ArrayConsumer<A, N>, pub right: &'a Slots<B, N>, pub k: usize, pub f: F, pub nd_a: bool, pub nd_b: bool,
+    pub ret: Ghost<Seq<Option<U>>>, pub la0: Ghost<Seq<A>>, pub ra0: Ghost<Seq<B>>, pub _u: core::marker::PhantomData<U>,
+}
+impl<'a, A, B, U, N: ArrayLength, F: Foreign2<A, &'a B, U>> ForeignIter<U> for ZipRefRightPipe<'a, A, B, U, N, F> {
+    type K = (Seq<A>, Seq<B>);
+    open spec fn konst(&self) -> (Seq<A>, Seq<B>) { (self.la0@, self.ra0@) }
+    open spec fn returned(&self) -> Seq<Option<U>> { self.ret@ }
+    open spec fn hint(&self) -> (usize, Option<usize>) { ((N::n() - self.k) as usize, Some((N::n() - self.k) as usize)) }
+    open spec fn inv(&self) -> bool {
+        &&& self.k <= N::n() && self.la0@.len() == N::n() && self.ra0@.len() == N::n()
+        &&& self.left.wf() &&& (self.k < N::n() ==> self.left.position == self.k) &&& (self.k == N::n() ==> self.left.position == N::n()) &&& forall|j: int| self.left.position <= j < N::n() ==> (#[trigger] self.left.array.view()[j]) == Some(self.la0@[j]) 
+        &&& self.right.ok() && self.right.all_live() &&& forall|j: int| 0 <= j < N::n() ==> (#[trigger] self.right.view()[j]) == Some(self.ra0@[j]) 
+        
+        &&& self.f.log().len() == self.k
+        &&& forall|j: int| 0 <= j < self.k ==> (#[trigger] self.f.log()[j]).0 == self.la0@[j] && *self.f.log()[j].1 == self.ra0@[j]
+        &&& self.ret@.len() >= self.k
+        &&& forall|j: int| 0 <= j < self.k ==> (#[trigger] self.ret@[j]) == Some(self.f.log()[j].2)
+        &&& forall|j: int| self.k <= j < self.ret@.len() ==> (#[trigger] self.ret@[j]).is_none()
+        &&& (self.ret@.len() > self.k ==> self.k == N::n())
+    }
+    fn next(&mut self) -> (r: Option<U>)
+    {
+        // Zip of two iterators over N items each
+        if self.k >= N::usize_() {
+            proof { self.ret = Ghost(self.ret@.push(None)); }
+            return None;
+        }
+        let l = self.k;
+        let r = self.k;
+        self.k += 1;
+
+        let right_value = self.right.peek(r);
+        let left_value = self.left.array.take(l);
+        self.left.position += 1;
+        proof {
+            assert(self.left.wf()) /*OB:inverted_zip_default.unwind@closure:C04*/;
+        }
+        let __r = self.f.call(left_value, right_value);
+        proof {
+            self.ret = Ghost(self.ret@.push(Some(__r)));
+        }
+        Some(__r)
+    }
+    fn size_hint(&self) -> (r: (usize, Option<usize>)) { (N::usize_() - self.k, Some(N::usize_() - self.k)) }
+}
+
+    // extracted from src/sequence.rs:37  `fn inverted_zip<B, U, F>( self, lhs: GenericArray<B, Self::Length>, mut f: F, ) -> MappedSequence<GenericArray<B, Self::Length>, B, U> where GenericArray<B, Self::Length>: GenericSequence<B, Length = Self::Length> + MappedGenericSequence<B, U>, Self: MappedGenericSequence<T, U>, F: FnMut(B, Self::Item) -> U,`
+    pub fn inverted_zip_default<'a, B, T, U, N: ArrayLength, F: Foreign2<B, &'a T, U>>(this: &'a Slots<T, N>, lhs: GenericArray<B, N>, f: F) -> (ret: (PanicOr<GenericArray<U, N>>, F))
+        requires
+            this.ok(),
+            this.all_live(),
+            lhs.slots.ok(),
+            lhs.slots.all_live(),
+            f.log().len() == 0,
+        ensures
+            ret.0 is Ret, /*OB:inverted_zip_default.post.never-the-length-panic:C08*/
+            ret.1.log().len() == N::n(), /*OB:inverted_zip_default.post.once-per-index:C08*/
+            forall|k: int| 0 <= k < N::n() ==> (#[trigger] ret.0->Ret_0.elems()[k]) == ret.1.log()[k].2, /*OB:inverted_zip_default.post.result-k-at-index-k:C08*/
+            forall|k: int| 0 <= k < N::n() ==> (#[trigger] ret.1.log()[k]).0 == lhs.elems()[k] && *ret.1.log()[k].1 == this.view()[k].unwrap(), /*OB:inverted_zip_default.post.pairs-ascending:C08*/
+    {
+        let ghost la0 = lhs.elems();
+        let ghost ra0 = Seq::new(N::n() as nat, |k: int| this.view()[k].unwrap());
+        {
+            let left = ArrayConsumer::new(lhs);
+            {
+                let mut pipe = ZipRefRightPipe {
+                    left: left, right: this, k: 0, f: f, nd_a: false, nd_b: false, ret: Ghost(Seq::empty()), la0: Ghost(la0), ra0: Ghost(ra0), _u: core::marker::PhantomData
+                };
+                proof {
+                    assert(pipe.inv());
+                }
+                let r = from_iter::<U, N, ZipRefRightPipe<B, T, U, N, F>>(&mut pipe);
+                proof {
+                    assert(pipe.k == N::n());
+                    assert(pipe.left.position == N::n());
+                    assert(pipe.la0@ == la0 && pipe.ra0@ == ra0);
+                    assert forall|k: int| 0 <= k < N::n() implies (#[trigger] r->Ret_0.elems()[k]) == pipe.f.log()[k].2 by {
+                        assert(pipe.returned()[k] == Some(r->Ret_0.elems()[k]));
+                        assert(pipe.ret@[k] == Some(pipe.f.log()[k].2));
+                    }
+                }
+                let ZipRefRightPipe {
+                    left, right: _, k: _, f, nd_a: _, nd_b: _, ret: _, la0: _, ra0: _, _u: _
+                }
+                = pipe;
+                let mut left = left;
+                left.drop_impl();
+                (r, f)
+            }
+        }
+    }
+    proof fn reach_inverted_zip_default<'a, B, T, U, N: ArrayLength, F: Foreign2<B, &'a T, U>>(this: &'a Slots<T, N>, lhs: GenericArray<B, N>, f: F) requires this.ok(), this.all_live(), lhs.slots.ok(), lhs.slots.all_live(), f.log().len() == 0, { assert(false); } /*OB:canary.inverted_zip_default:*/
+
+
+pub struct ZipRefRefPipe<'a, A, B, U, N: ArrayLength, F: Foreign2<&'a A, &'a B, U>> {
+    pub left: &'a Slots<A, N>, pub right: &'a Slots<B, N>, pub k: usize, pub f: F, pub nd_a: bool, pub nd_b: bool,
+    pub ret: Ghost<Seq<Option<U>>>, pub la0: Ghost<Seq<A>>, pub ra0: Ghost<Seq<B>>, pub _u: core::marker::PhantomData<U>,
+}
+impl<'a, A, B, U, N: ArrayLength, F: Foreign2<&'a A, &'a B, U>> ForeignIter<U> for ZipRefRefPipe<'a, A, B, U, N, F> {
+    type K = (Seq<A>, Seq<B>);
+    open spec fn konst(&self) -> (Seq<A>, Seq<B>) { (self.la0@, self.ra0@) }
+    open spec fn returned(&self) -> Seq<Option<U>> { self.ret@ }
+    open spec fn hint(&self) -> (usize, Option<usize>) { ((N::n() - self.k) as usize, Some((N::n() - self.k) as usize)) }
+    open spec fn inv(&self) -> bool {
+        &&& self.k <= N::n() && self.la0@.len() == N::n() && self.ra0@.len() == N::n()
+        &&& self.left.ok() && self.left.all_live() &&& forall|j: int| 0 <= j < N::n() ==> (#[trigger] self.left.view()[j]) == Some(self.la0@[j]) 
+        &&& self.right.ok() && self.right.all_live() &&& forall|j: int| 0 <= j < N::n() ==> (#[trigger] self.right.view()[j]) == Some(self.ra0@[j]) 
+        
+        &&& self.f.log().len() == self.k
+        &&& forall|j: int| 0 <= j < self.k ==> *(#[trigger] self.f.log()[j]).0 == self.la0@[j] && *self.f.log()[j].1 == self.ra0@[j]
+        &&& self.ret@.len() >= self.k
+        &&& forall|j: int| 0 <= j < self.k ==> (#[trigger] self.ret@[j]) == Some(self.f.log()[j].2)
+        &&& forall|j: int| self.k <= j < self.ret@.len() ==> (#[trigger] self.ret@[j]).is_none()
+        &&& (self.ret@.len() > self.k ==> self.k == N::n())
+    }
+    fn next(&mut self) -> (r: Option<U>)
+    {
+        // Zip of two iterators over N items each
+        if self.k >= N::usize_() {
+            proof { self.ret = Ghost(self.ret@.push(None)); }
+            return None;
+        }
+        let l = self.k;
+        let r = self.k;
+        self.k += 1;
+
+        let __a = self.left.peek(l);
+        let __b = self.right.peek(r);
+        let __r = self.f.call(__a, __b);
+        proof {
+            self.ret = Ghost(self.ret@.push(Some(__r)));
+        }
+        Some(__r)
+    }
+    fn size_hint(&self) -> (r: (usize, Option<usize>)) { (N::usize_() - self.k, Some(N::usize_() - self.k)) }
+}
+
+    // extracted from src/sequence.rs:66  `fn inverted_zip2<B, Lhs, U, F>(self, lhs: Lhs, mut f: F) -> MappedSequence<Lhs, B, U> where Lhs: GenericSequence<B, Length = Self::Length> + MappedGenericSequence<B, U>, Self: MappedGenericSequence<T, U>, F: FnMut(Lhs::Item, Self::Item) -> U,`
+    pub fn inverted_zip2_default<'a, B, T, U, N: ArrayLength, F: Foreign2<&'a B, &'a T, U>>(this: &'a Slots<T, N>, lhs: &'a Slots<B, N>, f: F) -> (ret: (PanicOr<GenericArray<U, N>>, F))
+        requires
+            this.ok(),
+            this.all_live(),
+            lhs.ok(),
+            lhs.all_live(),
+            f.log().len() == 0,
+        ensures
+            ret.0 is Ret, /*OB:inverted_zip2_default.post.never-the-length-panic:C08*/
+            ret.1.log().len() == N::n(), /*OB:inverted_zip2_default.post.once-per-index:C08*/
+            forall|k: int| 0 <= k < N::n() ==> (#[trigger] ret.0->Ret_0.elems()[k]) == ret.1.log()[k].2, /*OB:inverted_zip2_default.post.result-k-at-index-k:C08*/
+            forall|k: int| 0 <= k < N::n() ==> *(#[trigger] ret.1.log()[k]).0 == lhs.view()[k].unwrap() && *ret.1.log()[k].1 == this.view()[k].unwrap(), /*OB:inverted_zip2_default.post.pairs-ascending:C08*/
+    {
+        let ghost la0 = Seq::new(N::n() as nat, |k: int| lhs.view()[k].unwrap());
+        let ghost ra0 = Seq::new(N::n() as nat, |k: int| this.view()[k].unwrap());
+        let mut pipe = ZipRefRefPipe {
+            left: lhs, right: this, k: 0, f: f, nd_a: false, nd_b: false, ret: Ghost(Seq::empty()), la0: Ghost(la0), ra0: Ghost(ra0), _u: core::marker::PhantomData
+        };
+        proof {
+            assert(pipe.inv());
+        }
+        let r = from_iter::<U, N, ZipRefRefPipe<B, T, U, N, F>>(&mut pipe);
+        proof {
+            assert(pipe.k == N::n());
+            assert(pipe.la0@ == la0 && pipe.ra0@ == ra0);
+            assert forall|k: int| 0 <= k < N::n() implies (#[trigger] r->Ret_0.elems()[k]) == pipe.f.log()[k].2 by {
+                assert(pipe.returned()[k] == Some(r->Ret_0.elems()[k]));
+                assert(pipe.ret@[k] == Some(pipe.f.log()[k].2));
+            }
+        }
+        let ZipRefRefPipe {
+            left: _, right: _, k: _, f, nd_a: _, nd_b: _, ret: _, la0: _, ra0: _, _u: _
+        }
+        = pipe;
+        (r, f)
+    }
+    proof fn reach_inverted_zip2_default<'a, B, T, U, N: ArrayLength, F: Foreign2<&'a B, &'a T, U>>(this: &'a Slots<T, N>, lhs: &'a Slots<B, N>, f: F) requires this.ok(), this.all_live(), lhs.ok(), lhs.all_live(), f.log().len() == 0, { assert(false); } /*OB:canary.inverted_zip2_default:*/
 
 proof fn canary() { assert(false); } /*OB:canary:*/
 } // verus!
